@@ -29,6 +29,7 @@
 EXTENDS Integers, Sequences, TLC, Json
 
 CONSTANTS UnsupportedRule,   \* "rewrite" | "pass"
+          ParseRule,         \* "scripting" (as coded: html.Parse) | "noscripting" (plausible bug for the negative config)
           CspRule,           \* "firstline" (as coded: first header line, no policy-list splitting) | "policylist" (repaired)
           LengthRule,        \* "set" (as coded) | "forget" (plausible bug for the negative config)
           EmitCases
@@ -42,11 +43,70 @@ Encodings    == {"none", "gzip", "br", "unsupported"}
 Requests     == {"plain", "htmx"}
 Csps         == {"none", "scriptsrc", "several", "otheronly", "nononce", "afterother", "defaultfirst",
                  "linesfirst", "linessecond", "commafirst", "commasecond"}
-Bodies       == {"empty", "fragment", "full", "scriptbody", "nonascii", "scripts", "frameset"}
+Bodies       == {"empty", "fragment", "full", "scriptbody", "nonascii", "scripts", "frameset",
+                 "noscripthead", "noscriptbody", "noscriptmeta", "rawtext"}
 Accepts      == {"browser", "absent"}
 
 IsHtml(ct) == ct \in {"html", "htmlcharset"}           \* strings.HasPrefix(contentType, "text/html")
-HasBody(b) == b # "frameset"                           \* html.Parse synthesises html/head/body for everything else
+
+-----------------------------------------------------------------------------
+(* Documents. A body shape is a skeleton (nothing / a fragment without html-head-body tags / a full page / a
+   frameset page), the kind of running text, and ITEMS: elements whose content the HTML parsing algorithm does not
+   treat as ordinary markup, placed in head or body. The harness renders documents from exactly this description.
+
+     element class                              content is                         x/net/html Render writes text children
+     RawText  script style xmp iframe noembed   raw text (never markup)            verbatim
+     RcData   title textarea                    text with character references     escaped
+     noscript                                   raw text iff SCRIPTING is enabled  verbatim
+                                                else markup; in head only link/meta/style may stay inside, anything
+                                                else ends the head and moves to body together with what follows
+
+   Browsers that can run the reload script have scripting enabled, so the reference reading of every document is
+   the scripting one. ParseRule says how the proxy parses: "scripting" (html.Parse, as coded) | "noscripting".   *)
+Item(where, el, content) == [in |-> where, el |-> el, content |-> content]
+\* content kinds (the harness owns the concrete text): "markuplike" text that looks like tags and character references,
+\* "entity" text with character references, "element" one non-metadata element, "textentity" text with references plus an
+\* element, "metaonly" link/meta elements, "bodytag" text containing <body>...</body>, "src" no content (external script)
+Doc(shape) ==
+    CASE shape = "empty"        -> [skeleton |-> "empty",    text |-> "ascii",    items |-> <<>>]
+      [] shape = "fragment"     -> [skeleton |-> "fragment", text |-> "ascii",    items |-> <<>>]
+      [] shape = "full"         -> [skeleton |-> "page",     text |-> "ascii",    items |-> <<>>]
+      [] shape = "nonascii"     -> [skeleton |-> "page",     text |-> "nonascii", items |-> <<>>]
+      [] shape = "frameset"     -> [skeleton |-> "frameset", text |-> "ascii",    items |-> <<>>]
+      [] shape = "scriptbody"   -> [skeleton |-> "page", text |-> "ascii",
+                                    items |-> << Item("head", "script", "bodytag"), Item("body", "script", "bodytag"),
+                                                 Item("body", "script", "markuplike") >>]
+      [] shape = "scripts"      -> [skeleton |-> "page", text |-> "ascii",
+                                    items |-> << Item("head", "script", "src"), Item("body", "script", "entity"),
+                                                 Item("body", "script", "src"), Item("body", "script", "markuplike") >>]
+      [] shape = "noscripthead" -> [skeleton |-> "page", text |-> "nonascii",
+                                    items |-> << Item("head", "noscript", "element") >>]                 \* the tracking pixel
+      [] shape = "noscriptbody" -> [skeleton |-> "page", text |-> "ascii",
+                                    items |-> << Item("body", "noscript", "textentity"), Item("body", "noscript", "element") >>]
+      [] shape = "noscriptmeta" -> [skeleton |-> "page", text |-> "ascii",
+                                    items |-> << Item("head", "noscript", "metaonly"), Item("body", "noscript", "entity") >>]
+      [] shape = "rawtext"      -> [skeleton |-> "page", text |-> "ascii",
+                                    items |-> << Item("head", "style", "markuplike"), Item("head", "title", "entity"),
+                                                 Item("body", "textarea", "textentity"), Item("body", "xmp", "markuplike"),
+                                                 Item("body", "iframe", "markuplike"), Item("body", "noembed", "textentity"),
+                                                 Item("body", "script", "entity") >>]
+
+HasBody(b) == Doc(b).skeleton # "frameset"             \* html.Parse synthesises html/head/body for everything else
+
+RawText == {"script", "style", "xmp", "iframe", "noembed"}
+RcData  == {"title", "textarea"}
+HasReferences(content) == content \in {"entity", "textentity", "markuplike"}
+\* what parse + AppendChild + Render does to one item, judged by a scripting browser reading the result:
+\*   "preserved"     same element, same content
+\*   "restructured"  head ended early: the content and everything after it in head now lives in body
+\*   "reescaped"     character references were decoded by the parser and written back verbatim (&amp; -> &)
+\*   "reserialised"  the content was parsed into elements and written back in the serialiser's spelling
+Fate(it) ==
+    IF it.el \in RawText \cup RcData THEN "preserved"
+    ELSE IF it.el = "noscript" /\ ParseRule = "scripting" THEN "preserved"
+    ELSE IF it.in = "head" /\ it.content \in {"element", "textentity", "entity"} THEN "restructured"
+    ELSE IF HasReferences(it.content) THEN "reescaped"
+    ELSE "reserialised"
 
 -----------------------------------------------------------------------------
 (* Content-Security-Policy. A response carries zero or more header LINES; each line is a comma-separated list
@@ -137,7 +197,7 @@ Init ==
     /\ cfg \in [ct : ContentTypes, enc : Encodings, req : Requests, skip : BOOLEAN, csp : Csps,
                 body : Bodies, accept : Accepts]
     /\ hdr = [ct |-> cfg.ct, enc |-> cfg.enc, skip |-> cfg.skip, csp |-> cfg.csp, cl |-> "match"]
-    /\ body = [doc |-> cfg.body, inserted |-> 0, nonce |-> NoNonce, coding |-> cfg.enc, bytes |-> "backend"]
+    /\ body = [doc |-> cfg.body, items |-> [i \in 1..Len(Doc(cfg.body).items) |-> "backend"], inserted |-> 0, nonce |-> NoNonce, coding |-> cfg.enc, bytes |-> "backend"]
     /\ pc = "transport"
     /\ path = <<>>
 
@@ -184,8 +244,10 @@ Insert ==
             /\ body' = [body EXCEPT !.bytes = "mangled", !.inserted = 1, !.nonce = ParseNonce(hdr.csp)]
             /\ pc' = "encode" /\ path' = path \o <<"Insert.IntoEncodedBytes", NonceBranch(hdr.csp)>>
        ELSE IF HasBody(body.doc)
-            THEN /\ body' = [body EXCEPT !.bytes = "rendered", !.inserted = 1, !.nonce = ParseNonce(hdr.csp)]
-                 /\ pc' = "encode" /\ path' = path \o <<"Insert.AppendedToBody", NonceBranch(hdr.csp)>>
+            THEN /\ body' = [body EXCEPT !.bytes = "rendered", !.inserted = 1, !.nonce = ParseNonce(hdr.csp),
+                                          !.items = [i \in DOMAIN @ |-> Fate(Doc(body.doc).items[i])]]
+                 /\ pc' = "encode"
+                 /\ path' = path \o <<"Parse." \o ParseRule, "Insert.AppendedToBody", NonceBranch(hdr.csp)>>
             ELSE /\ UNCHANGED body /\ Go("encode", "Insert.BodyNotFound")
     /\ UNCHANGED <<cfg, hdr>>
 
@@ -234,6 +296,11 @@ HtmlGetsExactlyOneScript ==
         /\ body.inserted = 1 => (IF ScriptNonces(cfg.csp) = {} THEN body.nonce = NoNonce
                                  ELSE ~body.nonce.mangled /\ body.nonce.n \in ScriptNonces(cfg.csp))
 
+\* C20 "the same document": apart from the appended script nothing a scripting browser reads has changed -- in
+\* particular the content of every element that is not ordinary markup (raw text, RCDATA, noscript) is what it was
+DocumentOnlyAppendedTo ==
+    (Done /\ ~MustPass) => \A i \in DOMAIN body.items : body.items[i] \in {"backend", "preserved"}
+
 LengthMatchesBody == Done => (hdr.cl = "match" \/ (hdr.cl = "absent" /\ body.bytes = "gunzipped"))
 
 EncodingHeaderDescribesBody == Done => (hdr.enc = body.coding /\ body.bytes # "mangled")
@@ -244,6 +311,6 @@ TypeOK == /\ pc \in {"transport", "mark", "decide", "decode", "insert", "encode"
 \* every terminal state = one configuration with the response the spec predicts for it
 EmitCase == (EmitCases /\ Done) =>
     PrintT(<<"CASE", ToJson([cfg |-> cfg, path |-> path, mustpass |-> MustPass, inserted |-> body.inserted,
-                             nonce |-> body.nonce, nonces |-> ScriptNonces(cfg.csp), csplines |-> CspLines(cfg.csp), enc |-> hdr.enc, cl |-> hdr.cl,
+                             nonce |-> body.nonce, nonces |-> ScriptNonces(cfg.csp), csplines |-> CspLines(cfg.csp), doc |-> Doc(cfg.body), fates |-> body.items, enc |-> hdr.enc, cl |-> hdr.cl,
                              bytes |-> body.bytes])>>)
 =============================================================================
